@@ -264,6 +264,9 @@ def run(ctx):
 
     rc, tout, _ = core.run_lines(drv, ["T"], timeout=120)
     tables = tout[0] if tout else ""
+    # do the generated tables say that errno is carried through the job (proxy stores, every wrapper restores)?
+    carried = " E 1 " in (tables + " ")
+    absent = (tables + " ").rstrip().endswith(" 1") and " E 0 1" in tables
     # 2. scenarios
     if quick:
         configs = [((1, 1), 40, [(8, 300, 60)]), ((2, 2), 40, [(32, 120, 60), (1, 1500, 60)]), ((4, 1), 30, [(64, 30, 60)])]
@@ -345,6 +348,10 @@ def run(ctx):
                 why = "the code after the wrapper call ran %d times" % rets
             if why is not None:
                 oracle_fail.append((None, "%s: %s" % (KINDS[kind], why), case))
+            elif kind < 10 and dret < 0 and derr != werr and not absent:
+                oracle_fail.append((None, "%s: fails with %s when called directly; through the wrapper it returns %d too but the caller's errno is %s "
+                                          "(the source mentions errno in the job protocol, so the codes must be equal)" %
+                                    (KINDS[kind], _errno.errorcode.get(derr, derr), wret, _errno.errorcode.get(werr, werr)), case))
             elif kind < 10 and dret < 0 and derr != werr:
                 errno_class += 1
                 oracle_fail.append(("errno-not-propagated",
@@ -388,6 +395,13 @@ def run(ctx):
             meta.append(("C", idx))
             cmds.append("C %s %d %s r %s p %s" % (wn, 0, "0", " ".join(bits(x) for x in rets), " ".join(bits(x) for x in params)))
             meta.append(("C0", idx))
+        # caller's errno after a failing call, per the tables (scenario phase: errno was 0 before the call; without the
+        # errno fix the value is only defined when the task cannot resume on another pthread, i.e. on 1x1)
+        if carried or (ns, nw) == (1, 1):
+            for idx, c in sorted(calls.items()):
+                if idx < 100000 and c["wid"] < 10 and c["ret"] == -1 and c["sys"] and c["sys"][-1][3] is not None:
+                    cmds.append("R %s 0 -1 -1 %s" % (WRAPPERS[c["wid"]], bits(c["sys"][-1][3])))
+                    meta.append(("R", idx))
         for k, ins in enumerate(insts):
             c = calls.get(ins["idx"])
             if c is None or (hung and not ins["freed"]):
@@ -399,6 +413,13 @@ def run(ctx):
         if len(mout) != len(cmds):
             raise core.BuildError("c20 model driver failed: %s" % merr[-500:])
         for (tag, key), cmd, ans in zip(meta, cmds, mout):
+            if tag == "R":
+                c = calls[key]
+                evals += 1
+                if not ans.startswith("R ") or unbits(ans[2:].strip()) != c["errno"]:
+                    mismatches.append(("errno", {"config": cfg, "call": WRAPPERS[c["wid"]], "params": c["params"][:NPARAMS[c["wid"]]],
+                                                 "errno_of_the_proxied_call": c["sys"][-1][3], "caller_errno_impl": c["errno"], "caller_errno_model": ans}))
+                continue
             if tag in ("C", "C0"):
                 c = calls[key]
                 wn = WRAPPERS[c["wid"]]
@@ -447,7 +468,8 @@ def run(ctx):
         traces_validated_against_impl=traces_ok, wrapper_calls=total_calls, input_distribution=hist,
         configs=[list(c[0]) for c in configs], correspondence_mismatches=len(mismatches),
         generated_tables=tables[:1500], generator_error=gen_error, errno_class_cases=errno_class,
-        refuted_on_current_tree=["transparent_errno_refuted"])
+        errno_carried_by_source=carried,
+        refuted_on_current_tree=[] if carried else ["transparent_errno_refuted (no wrapper of the source restores errno)"])
     ctx.assumptions += ["LP64 little-endian target (memcpy of an int into the low bytes of a uintptr_t slot)",
                         "the OS is an oracle: Coq Section variable sys; at run time the direct call on a twin descriptor",
                         "errno after a SUCCESSFUL call is unspecified by POSIX and is not compared",
